@@ -12,7 +12,7 @@ use locspan::Meta;
 use sophia_api::ns::rdf;
 use sophia_api::quad::Quad;
 use sophia_api::source::{QuadSource, SinkError, StreamResult};
-use sophia_api::term::{Term, TermKind, TryFromTerm};
+use sophia_api::term::{LanguageTag, Term, TermKind, TryFromTerm};
 use std::collections::{HashMap, HashSet};
 
 /// JSON-LD serializer engine
@@ -149,7 +149,7 @@ impl<'a, L> Engine<'a, L> {
         // check that candidate compound literals are indeed compound literels
         if self.options.rdf_direction() == Some(RdfDirection::CompoundLiteral) {
             let mut compound_literals = std::mem::take(&mut self.compound_literals);
-            compound_literals.retain(|is| is_compound_literal(&self.node[*is]));
+            compound_literals.retain(|is| self.is_compound_literal(*is));
             self.compound_literals = compound_literals;
         }
 
@@ -159,6 +159,19 @@ impl<'a, L> Engine<'a, L> {
             .filter_map(|(inode, node)| self.jsonify(inode, node, true).transpose())
             .collect::<Result<Vec<_>, _>>()
             .map(Into::into)
+    }
+
+    /// Check that this node has the shape of a compound literal,
+    /// and that it has a unique parent, in the same graph, and is not used in any other graph
+    /// (otherwise, it must be rendered directly)
+    fn is_compound_literal(&self, inode: usize) -> bool {
+        let (g_id, s_id) = &self.gs_id[inode];
+        is_compound_literal(&self.node[inode])
+            && matches!(
+                self.unique_parent.get(s_id),
+                Some(Some((iparent, _))) if &self.gs_id[*iparent].0 == g_id
+            )
+            && self.gs_id.iter().filter(|(_, id)| id == s_id).count() == 1
     }
 
     /// If this node is a bnode with only 1 rdf:value & 1 rdf:rest),
@@ -416,19 +429,19 @@ fn is_list_node(node: &HashMap<Box<str>, Vec<RdfObject>>) -> bool {
 }
 
 // check if node is a compound literal
+// (exactly 1 rdf:value, 1 rdf:direction and possibly 1 rdf:language,
+// all of them plain strings that can be converted to @value, @direction and @language)
 fn is_compound_literal(node: &HashMap<Box<str>, Vec<RdfObject>>) -> bool {
+    let only_string = |key: &str| match node.get(key).map(Vec::as_slice) {
+        Some([RdfObject::TypedLiteral(lex, dt)]) if dt.as_str() == XSD_STRING => Some(lex),
+        _ => None,
+    };
     2 <= node.len()
         && node.len() <= 3
-        && node
-            .get(RDF_DIRECTION)
-            .is_some_and(|v| v.len() == 1 && v[0].is_literal())
-        && node
-            .get(RDF_VALUE)
-            .is_some_and(|v| v.len() == 1 && v[0].is_literal())
+        && only_string(RDF_DIRECTION).is_some_and(|dir| ["ltr", "rtl"].contains(&dir.as_ref()))
+        && only_string(RDF_VALUE).is_some()
         && (node.len() == 2
-            || node
-                .get(RDF_LANGUAGE)
-                .is_some_and(|v| v.len() == 1 && v[0].is_literal()))
+            || only_string(RDF_LANGUAGE).is_some_and(|tag| LanguageTag::new(tag.as_ref()).is_ok()))
 }
 
 const NS_18N: &str = "https://www.w3.org/ns/i18n#";
